@@ -649,4 +649,54 @@ theorem C10_newlist_flavour (args : List Bool) :
 
 end concurrent
 
+/-! ## traversals whose callback modifies the list
+
+`Range` / `ForEach` / `RangeReverse` / `ForEachReverse` are `container/list`'s documented loop (`C10_code_walks`: start
+at `Front()`/`Back()`, advance by `Next()`/`Prev()` **after** the callback). `walkMut` (Hive/Model/DListConc.lean) is
+that loop with a callback that modifies the list at its `k`-th call; the harness runs every traversal × 12 actions ×
+every position on lists of 1..5 elements three-way (op line `reent`). -/
+section reentrant
+
+/-- **The loop acts, then advances in the list as the callback left it** (every state, both directions): before the
+`k`-th call values are delivered from the unchanged list; at the `k`-th call the callback's action is applied and the
+rest of the traversal is the plain walk of the *new* list from the *new* successor of the current element; in
+particular an element removed inside its own callback ends the traversal (its `Next()`/`Prev()` is nil afterwards). -/
+theorem C10_reentrant_traversal (fwd : Bool) (act : St → Nat → St) (f : Nat) (s : St) (e : Nat) (he : e ≠ 0) :
+    (∀ k, walkMut fwd act (f + 1) (k + 2) s e =
+      ((walkMut fwd act f (k + 1) s (if fwd then nextOf s e else prevOf s e)).1,
+       valueOf s e :: (walkMut fwd act f (k + 1) s (if fwd then nextOf s e else prevOf s e)).2)) ∧
+    walkMut fwd act (f + 1) 1 s e =
+      (act s e, valueOf s e ::
+        (if fwd then walkF (act s e) f (nextOf (act s e) e) else walkB (act s e) f (prevOf (act s e) e))) ∧
+    (∀ l first last, owned s e l = true →
+      walkMut fwd (reAct l first last .rmCur) (f + 1) 1 s e = ((step s (.remove l e)).1, [valueOf s e])) := by
+  refine ⟨fun k => walkMut_before fwd act f k s e he, walkMut_acts fwd act f s e he, ?_⟩
+  intro l first last ho
+  rw [walkMut_acts fwd _ f s e he]
+  have hn : nextOf (reAct l first last .rmCur s e) e = 0 := by
+    simp [reAct, step, ho, remove, nextOf, setOwner]
+  have hp : prevOf (reAct l first last .rmCur s e) e = 0 := by
+    simp [reAct, step, ho, remove, prevOf, setOwner]
+  rw [hn, hp]
+  cases fwd <;> cases f <;> simp [walkF, walkB, reAct]
+
+/-- On `[1 2 3]` (handles 3, 4, 5), computed: moving the **current** element to the back at the first call ends the walk
+(its `Next()` is nil there), moving the **first** element to the back at the second call makes the walk meet it again;
+removing the successor skips it; inserting after the current element at the second call delivers the new value next;
+`Init` inside the second callback empties the list but the walk goes on over the old elements (they keep their
+pointers, exactly as in container/list); backwards, moving the current (last) element to the front ends the walk at
+once. (`decide` on concrete instances — tests, not the general claim.) -/
+example :
+    let s := (run init [.pushBack false 1, .pushBack false 2, .pushBack false 3]).1
+    (walkMut true (reAct false 3 5 .mbCur) 20 1 s (front s false)).2 = [1] ∧
+    (walkMut true (reAct false 3 5 .mbFirst) 20 2 s (front s false)).2 = [1, 2, 3, 1] ∧
+    (walkMut true (reAct false 3 5 .rmNext) 20 1 s (front s false)).2 = [1, 3] ∧
+    (walkMut true (reAct false 3 5 .iaCur) 20 2 s (front s false)).2 = [1, 2, 102, 3] ∧
+    (walkMut true (reAct false 3 5 .init) 20 2 s (front s false)).2 = [1, 2, 3] ∧
+    values (walkMut true (reAct false 3 5 .init) 20 2 s (front s false)).1 false = [] ∧
+    (walkMut false (reAct false 3 5 .mfCur) 20 1 s (back s false)).2 = [3] := by
+  decide
+
+end reentrant
+
 end Hive.DList
